@@ -25,6 +25,15 @@ pub fn verify_oods<Layout: LayoutTrait>(
     trace_domain_size: &Felt,
     trace_generator: &Felt,
 ) -> Result<(), OodsVerifyError> {
+    // The mask values and the composition values are read from fixed positions of `oods` both
+    // here and in the DEEP quotient; any other length would let the two readings disagree.
+    if oods.len() != Layout::MASK_SIZE + Layout::CONSTRAINT_DEGREE {
+        return Err(OodsVerifyError::OodsValuesLengthInvalid {
+            expected: Layout::MASK_SIZE + Layout::CONSTRAINT_DEGREE,
+            actual: oods.len(),
+        });
+    }
+
     let composition_from_trace = Layout::eval_composition_polynomial(
         interaction_elements,
         public_input,
@@ -56,6 +65,8 @@ use thiserror::Error;
 pub enum OodsVerifyError {
     #[error("oods invalid {expected} - {actual}")]
     EvaluationInvalid { expected: Felt, actual: Felt },
+    #[error("oods values length invalid: expected {expected}, actual {actual}")]
+    OodsValuesLengthInvalid { expected: usize, actual: usize },
     #[error("CompositionPolyEval Error")]
     CompositionPolyEvalError(#[from] CompositionPolyEvalError),
 }
@@ -68,6 +79,8 @@ use thiserror_no_std::Error;
 pub enum OodsVerifyError {
     #[error("oods invalid {expected} - {actual}")]
     EvaluationInvalid { expected: Felt, actual: Felt },
+    #[error("oods values length invalid: expected {expected}, actual {actual}")]
+    OodsValuesLengthInvalid { expected: usize, actual: usize },
     #[error("CompositionPolyEval Error")]
     CompositionPolyEvalError(#[from] CompositionPolyEvalError),
 }
